@@ -32,8 +32,10 @@ impl PhasedEval {
         // Switch to 64 bit calculations to avoid overflow
         let phase_value = i64::from(phase_value);
 
+        // With promoted pieces the phase value can exceed its nominal maximum: cap it before
+        // deriving *both* weights, so that the endgame weight never goes negative.
         let midgame_phase_value = phase_value.min(PHASE_COUNT_MAX);
-        let endgame_phase_value = PHASE_COUNT_MAX - phase_value;
+        let endgame_phase_value = PHASE_COUNT_MAX - midgame_phase_value;
 
         let midgame_eval = i64::from(self.midgame().0);
         let endgame_eval = i64::from(self.endgame().0);
